@@ -469,6 +469,12 @@ func runHistory(h rhistory) (res renderOutcome) {
 			}
 		}
 		rendered := (o.op == "f" || o.op == "st") && len(written) > 0 && before.Buf != "" && before.Buf != before.LastRender
+		// entering the alt screen with printed lines still queued first brings the main screen up to
+		// date (a render of the pending view, with the lines above it), then switches
+		eaRendered := o.op == "ea" && !before.AltScreenActive && len(queued) > 0 && before.Buf != "" && before.Buf != before.LastRender
+		if eaRendered {
+			rendered = true
+		}
 		if o.op == "f" || o.op == "st" {
 			flushBytes := len(written)
 			if o.op == "st" && flushBytes >= 5 {
@@ -532,12 +538,15 @@ func runHistory(h rhistory) (res renderOutcome) {
 			v := expectView
 			onScreen = &v
 			pendingWrite = false
+			if eaRendered {
+				onScreen = nil // the alt screen starts blank
+			}
 		}
 		viewProp := "C06"
 		if o.op == "st" {
 			viewProp = "C07" // the render that stop() performs: the final view
 		}
-		if rendered && after.AltScreenActive {
+		if rendered && after.AltScreenActive && !eaRendered {
 			b := t.alt
 			for r := 0; r < curH; r++ {
 				exp := ""
